@@ -223,12 +223,21 @@ class VLoop(asyncio.SelectorEventLoop):
         Returns the finished task, or raises HangError if it neither finishes nor can progress.
         """
         task = self.create_task(coro)
+        idle_jumps = 0
         for _ in range(budget):
             self.settle()
             if task.done():
                 self.pump_devices(None)
                 return task
             if not self.pump_devices(responder):
+                # nothing to answer and nothing runnable: if the code under test is waiting on a timer (an internal
+                # timeout, a grace period), virtual time passes until the earliest one is due
+                if self._scheduled and idle_jumps < 50:
+                    idle_jumps += 1
+                    self.vtime = max(self.vtime, min(h._when for h in self._scheduled if not h._cancelled) if any(not h._cancelled for h in self._scheduled) else self.vtime)
+                    if any(not h._cancelled for h in self._scheduled):
+                        self.step()
+                        continue
                 break
         self.settle()
         if task.done():
